@@ -64,6 +64,7 @@ def run(ctx) -> None:
     decided.update(canonical_str_rule(ctx, "R7"))
     decided.update(legacy_key_rule(ctx, "R9"))
     decided.update(pep440_key_rule(ctx, "R4"))
+    letter_version_eval(ctx, "R4")
 
     base = prog.klass(f"{M}._BaseVersion")
     n = 0
@@ -198,6 +199,21 @@ def run(ctx) -> None:
     ok = len(tr) == 1 and len(tr[0].handlers) == 1 and unparse(tr[0].handlers[0].type) == "InvalidVersion" \
         and unparse(tr[0].body[0]) == f"return Version({pf.params[0]})" and unparse(tr[0].handlers[0].body[0]) == f"return LegacyVersion({pf.params[0]})"
     ctx.check("R5", ok, "parse: Version(v), falling back to LegacyVersion(v) only on InvalidVersion", f"{M}.parse: fallback rule changed", "", loc=pf.loc())
+    pcfg5 = cfgs.get(pf.fq)
+    hbody5 = {nid for h_ in shapes.handlers_catching(pcfg5, ["InvalidVersion"]) for st_ in ast.walk(pcfg5.nodes[h_].ast) for nid in pcfg5.stmt_nodes.get(id(st_), [])}
+    stray = [n for n in pcfg5.nodes if n.kind == "stmt" and isinstance(n.ast, ast.Return) and n.ast.value is not None and "LegacyVersion" in unparse(n.ast.value)
+             and n.id in pcfg5.reachable() and n.id not in hbody5]
+    ctx.check("R5", not stray, "parse: a LegacyVersion is returned only from the InvalidVersion handler (Version's own regex decides what is PEP 440)",
+              f"{M}.parse: a string can be sent to the legacy ordering without asking Version",
+              f"`{unparse(stray[0].ast) if stray else ''}` outside the handler: a pre-test that is narrower than VERSION_PATTERN (case, leading blanks) makes PEP 440 spellings such as `V1.2.3` "
+              "sort below every PEP 440 version", loc=pf.loc(stray[0].ast) if stray else pf.loc(), witness=["V1.2.3", " 1.2.3"])
+    # generators must not sit behind a cache: the second caller gets the exhausted generator of the first
+    for f_ in prog.module(M).functions.values():
+        if f_.is_generator:
+            cached = [unparse(d_) for d_ in getattr(f_.node, "decorator_list", []) if any(w_ in unparse(d_) for w_ in ("lru_cache", "functools.cache", "memo"))]
+            ctx.check("R9", not cached, f"{f_.fq}: a generator function, not cached", f"{f_.fq}: a generator function is cached",
+                      f"decorators {cached}: the cached object is the generator of the first call; every later parse of the same string sees it exhausted and gets the key (-1, ())",
+                      loc=f_.loc(), witness=["v2017q1.54321", "v2017q1.54321"])
     rx = prog.klass(f"{M}.Version").class_consts.get("_regex")
     ctx.require(rx is not None, "Version._regex vanished")
     txt = unparse(rx)
@@ -650,7 +666,10 @@ def pep440_key_rule(ctx, rule: str) -> T.Dict[str, bool]:
         try:
             for raw, wantl in ((None, None), (("abc", 1), "abc.1"), ((7,), "7")):
                 me = types.SimpleNamespace(_version=types.SimpleNamespace(local=raw))
-                got3, _ys = prog.run_body(lp, {lp.params[0]: me})
+                try:
+                    got3, _ys = prog.run_body(lp, {lp.params[0]: me, "__strict__": True})
+                except EvalError as ex:
+                    got3 = f"raises: {ex}"
                 if got3 != wantl:
                     bad3.append(f"_version.local = {raw!r} -> {got3!r}, expected {wantl!r}")
             ctx.check("R7", not bad3, "Version.local is the label joined with dots (None when absent)", f"{M}.Version.local: the local label is not handed to __str__",
@@ -658,3 +677,30 @@ def pep440_key_rule(ctx, rule: str) -> T.Dict[str, bool]:
         except (CannotFold, TypeError, AttributeError, KeyError, ValueError, IndexError):
             pass
     return {"_parse_local_version": bool(n), "_cmpkey": bool(n2)}
+
+
+def letter_version_eval(ctx, rule: str) -> None:
+    """_parse_letter_version evaluated for 11 (letter, number) pairs: (normalised short letter, int(number or 0)), the implicit post
+    release for a bare number, None for nothing."""
+    from sa.model import CannotFold, EvalError
+    prog = ctx.prog
+    fn = prog.function(f"{M}._parse_letter_version")
+    cases = [(("a", "1"), ("a", 1)), (("ALPHA", "01"), ("a", 1)), (("beta", "2"), ("b", 2)), (("rc", None), ("rc", 0)), (("preview", "2"), ("rc", 2)), (("c", "9"), ("rc", 9)),
+             (("pre", "10"), ("rc", 10)), (("r", "5"), ("post", 5)), (("Rev", "0"), ("post", 0)), ((None, "3"), ("post", 3)), ((None, "10"), ("post", 10)), ((None, None), None), (("dev", "4"), ("dev", 4))]
+    wrong = []
+    n = 0
+    try:
+        for (letter, number), want in cases:
+            try:
+                got, _ys = prog.run_body(fn, {fn.params[0]: letter, fn.params[1]: number, "__strict__": True})
+            except EvalError as ex:
+                got = f"raises: {ex}"
+            n += 1
+            if got != want or (isinstance(got, tuple) and type(got[1]) is not int):
+                wrong.append(f"({letter!r}, {number!r}) -> {got!r}, expected {want!r}")
+    except (CannotFold, TypeError, AttributeError, KeyError, ValueError, IndexError) as ex:
+        ctx.observe(f"_parse_letter_version not evaluated ({type(ex).__name__}: {str(ex)[:80]})")
+        return
+    ctx.check(rule, not wrong, f"_parse_letter_version: (short letter, int number) for every spelling, implicit post release, None ({n} pairs evaluated)",
+              f"{M}._parse_letter_version: a pre/post/dev segment is not (PEP 440 short letter, number as int)", "; ".join(wrong[:3]) + " - e.g. 1.0a9 < 1.0a10 needs the numbers as ints",
+              loc=fn.loc(), witness=["1.0a9", "1.0a10"])
